@@ -237,6 +237,42 @@ def sqlite_db(db):
     return con
 
 
+def gen_outside(rng):
+    """statements with constructs the Coq evaluator does not model (window functions, LIKE, CAST, division, string functions,
+    simple CASE, concatenation): judged sqlite-vs-sqlite (original text against rendered text)"""
+    ig, t = rng.choice(c08.ALL_TABLES)
+    c1, c2, c3 = (rng.choice(COLS) for _ in range(3))
+    k = rng.randrange(12)
+    if k == 0:
+        fn = rng.choice(['row_number()', 'rank()', 'dense_rank()', f'sum({c3})', f'count({c3})', f'max({c3})', f'min({c3})', f'lag({c3})', f'lead({c3})'])
+        part = rng.choice(['', f'partition by {c1} ', f'partition by {c1}, {c2} '])
+        od = rng.choice([f'order by {c2}', f'order by {c2} desc', f'order by {c2}, {c3} desc', f'order by {c2} desc, {c1}'])
+        return f'select {c1}, {c2}, {fn} over ({part}{od}) as w from {ig}.{t}'
+    if k == 1:
+        return f'select {c1}, sum({c2}) over (partition by {c1}) as s, count(*) over () as n from {ig}.{t} order by {c1}, s'
+    if k == 2:
+        return f"select * from {ig}.{t} where cast({c1} as text) {rng.choice(['like', 'not like'])} '{rng.choice(['1%', '%2', '_', '%'])}'"
+    if k == 3:
+        # (no `/` between integers: SQLAlchemy 2 renders it as true division on purpose, sqlite's own `/` truncates)
+        return f'select {c1} % {rng.choice([2, 3])} as q, {c2} % 2 as r, {c1} * 1.5 as f, {c3} / 2.0 as h from {ig}.{t} where {c2} % 2 > 0'
+    if k == 4:
+        return f'select cast({c1} as {rng.choice(["text", "integer", "float", "varchar", "char(3)"])}) as x, {c2} from {ig}.{t} order by {c2}'
+    if k == 5:
+        return f'select case {c1} when 1 then 10 when 2 then 20 else {c2} end as x from {ig}.{t}'
+    if k == 6:
+        return f"select {c1} || '-' || {c2} as s, lower('AbC') as l, upper('x') as u, length(cast({c3} as text)) as n from {ig}.{t}"
+    if k == 7:
+        return f'select {c1}, count(distinct {c2}) as d, avg({c3}) as a, min({c2}) as mn from {ig}.{t} group by {c1} having count(*) >= 1 order by {c1} desc nulls last'
+    if k == 8:
+        return f'select abs({c1} - {c2}) as d, round({c3} / 3.0, 1) as r, coalesce({c1}, {c2}, 0) as c, nullif({c1}, {c2}) as n from {ig}.{t}'
+    if k == 9:
+        return f"select * from {ig}.{t} where {c1} in (1, 2) or ({c2} is not null and not ({c3} between 1 and 2)) order by {c1} nulls first, {c2} desc limit 3 offset 1"
+    if k == 10:
+        ig2, t2 = rng.choice(c08.ALL_TABLES)
+        return f'select x.{c1}, (select max({c2}) from {ig2}.{t2}) as m, exists (select 1 from {ig2}.{t2} where {c3} = 1) as e from {ig}.{t} as x'
+    return f'select {c1}, {c2} from {ig}.{t} where {c3} = (select min({c3}) from {ig}.{t}) or {c1} > all (select 0) order by 1, 2'
+
+
 def run(tier, seed, replay=None):
     R = Result(PROP, tier, seed, level='proof')
     R.cov['checker_cmd'] = 'make -C /verif/coq (Props/C06.v); coqc Gen/C06_inst.v Gen/C06_cases_*.v'
@@ -391,6 +427,45 @@ def run(tier, seed, replay=None):
                      'database': {'.'.join(k_): {'columns': v_[0], 'rows': v_[1]} for k_, v_ in db.items() if v_[1]},
                      'what': 'executing the rendered text does not give an acceptable answer to the parsed statement',
                      'judge': 'Model/SqlJudge.verdict = (1, _)'})
+    # ---- constructs outside the Coq evaluator (window functions, LIKE, CAST, division, string functions ...): original text
+    # against rendered text, both executed by sqlite3 (exploration; the rows and, where the query orders them, their order)
+    if not replay or 'outside_sql' in rp:
+        outs_sql = [gen_outside(rng) for _ in range(120 if tier == 'quick' else 2000)] if not replay else [rp['outside_sql']]
+        n_out = n_cmp = 0
+        rep_out = 0
+        for sql in outs_sql:
+            for dialect in ('sqlite', 'mysql', 'postgres'):
+                try:
+                    rendered = SqlalchemyRender(dialect).get_string(parse_sql(sql, 'mindsdb'), with_failback=False)
+                except Exception as e:
+                    skipped.setdefault(f'render({dialect}): {type(e).__name__}: {str(e)[:50]}', sql)
+                    continue
+                n_out += 1
+                for _ in range(ndb):
+                    db = sqlcoq.gen_db(rng, c08.ALL_TABLES, COLS)
+                    con = sqlite_db(db)
+                    try:
+                        a = [list(r) for r in con.execute(sql).fetchall()]
+                    except sqlite3.Error:
+                        con.close()
+                        break           # the original is not sqlite text: nothing to compare with
+                    try:
+                        b = [list(r) for r in con.execute(rendered).fetchall()]
+                    except sqlite3.Error:
+                        con.close()
+                        break           # another dialect's text that sqlite does not accept
+                    con.close()
+                    n_cmp += 1
+                    ordered = ' order by ' in sql.lower() and ' over (' not in sql.lower()
+                    same = (a == b) if ordered else (sorted(map(repr, a)) == sorted(map(repr, b)))
+                    if not same and rep_out < 3:
+                        rep_out += 1
+                        R.violation({'outside_sql': sql, 'dialect': dialect, 'rendered': rendered, 'rows_of_the_original': a[:10], 'rows_of_the_rendered_text': b[:10],
+                                     'database': {'.'.join(k_): {'columns': v_[0], 'rows': v_[1]} for k_, v_ in db.items() if v_[1]},
+                                     'what': 'the rendered text, executed by sqlite3, does not return the rows of the original text'})
+                        break
+        stats['outside_evaluator_renderings'] = n_out
+        stats['outside_evaluator_comparisons'] = n_cmp
     # ---- DML / DDL, sqlite vs sqlite
     dml_bad = []
     for sql, tname in DML:
